@@ -15,6 +15,9 @@ from ..callgraph import covers
 from . import common as cm
 
 
+ALSO_PORTABLE = True
+
+
 def run(ctx, chk):
     prog = ctx.prog()
     cg = prog.callgraph()
